@@ -9,7 +9,7 @@ EXTRACT = ["FDS"]
 BINS = []
 NEEDS_CICADA = True
 ALLOWED_AXIOMS = []
-PINNED = ["C08_full", "C08_refuted", "C08_shell", "C08_emfile", "Known_C08_shell"]
+PINNED = ["C08_full", "C08_refuted", "C08_partial", "C08_shell", "C08_children", "C08_builtin", "C08_emfile", "Known_C08"]
 TRUSTED = R.TRUSTED
 ASSUMES = R.ASSUMES
 WEIGHTS = {"builtin": 0.15, "notfound": 0.06, "here": 0.15, "from": 0.1, "redir": 0.5, "maxredir": 3, "capture": 0.2,
@@ -30,3 +30,4 @@ def run(ctx, res):
     R.run_sequences(ctx, res, "C08", R.gen_sequences(ctx, 40 if ctx.thorough else 8, 4, WEIGHTS), "seqfd5", extra_fds=(5,))
     R.run_sequences(ctx, res, "C08", R.l3_cases(ctx), "l3", strace=True)
     R.ulimit_runs(ctx, res, "C08")
+    R.capture_fail_runs(ctx, res, "C08")
